@@ -121,7 +121,7 @@ func tryReplay(o *vc.Obligation, prop, dir string) (bool, string) {
 	recv := ""
 	for i, p := range fn.Params {
 		collect(p.Type(), 0)
-		lit := vc.GoLiteral(model, p.Type(), p.Name(), qual, 0)
+		lit := v.GoLiteral(model, p.Type(), p.Name(), qual, 0)
 		if i == 0 && fn.Signature.Recv() != nil {
 			recv = lit
 			continue
@@ -134,6 +134,15 @@ func tryReplay(o *vc.Obligation, prop, dir string) (bool, string) {
 		call = fmt.Sprintf(tgt.CallExpr, recv, strings.Join(args, ", "))
 	} else {
 		call = fmt.Sprintf(tgt.CallExpr, strings.Join(args, ", "))
+	}
+	// dynamic types of interface-typed values may come from any package the
+	// target imports
+	if fn.Pkg != nil {
+		for _, ip := range fn.Pkg.Pkg.Imports() {
+			if _, ok := imports[ip.Path()]; !ok {
+				imports[ip.Path()] = ip.Name()
+			}
+		}
 	}
 	var imp strings.Builder
 	for path, name := range imports {
@@ -204,7 +213,7 @@ func TestVerifReplay(t *testing.T) {
 	case o.Kind == "decreases":
 		confirmed = strings.HasPrefix(verdict, "TIMEOUT") || strings.HasPrefix(verdict, "CRASHED") || strings.HasPrefix(verdict, "PANIC")
 	default:
-		confirmed = strings.HasPrefix(verdict, "PANIC") || strings.HasPrefix(verdict, "CRASHED")
+		confirmed = strings.HasPrefix(verdict, "CRASHED") || (strings.HasPrefix(verdict, "PANIC") && panicMatchesKind(o.Kind, verdict))
 	}
 	if !confirmed {
 		return false, ""
@@ -249,4 +258,32 @@ func parseGetValueOut(s string) []string {
 		}
 	}
 	return out
+}
+
+// panicMatchesKind tells whether the run-time panic observed on the real code
+// is the failure the obligation is about (a different panic on the same input
+// may predate the change under test, e.g. inside a trusted callee, and does
+// not confirm this obligation).
+func panicMatchesKind(kind, verdict string) bool {
+	has := func(ss ...string) bool {
+		for _, s := range ss {
+			if strings.Contains(verdict, s) {
+				return true
+			}
+		}
+		return false
+	}
+	switch kind {
+	case "bounds":
+		return has("out of range")
+	case "nil":
+		return has("nil pointer dereference", "nil map")
+	case "div":
+		return has("divide by zero")
+	case "makeslice":
+		return has("makeslice", "out of range", "out of memory")
+	case "typeassert":
+		return has("interface conversion")
+	}
+	return true
 }
